@@ -185,8 +185,9 @@ def format_time_units_for_ems(units: str, calendar: str | None = DEFAULT_CALENDA
     # This will put them in the correct timezone
     offset_datetime = reference_datetime.replace(tzinfo=pytz.UTC).astimezone(tzinfo)
 
-    offset_hours, offset_minutes = divmod(int(time_bits[-1]), 60)
-    offset_string = f'{offset_hours:+d}:{offset_minutes:02d}'
+    offset_sign = '-' if offset_total < 0 else '+'
+    offset_hours, offset_minutes = divmod(abs(int(offset_total)), 60)
+    offset_string = f'{offset_sign}{offset_hours:02d}:{offset_minutes:02d}'
 
     new_units = f'{period} since {offset_datetime:%Y-%m-%d %H:%M:%S} {offset_string}'
 
